@@ -14,7 +14,9 @@ prop = Prop(
     rule=(
         "histories: the domain of C10 (vf/sched_model.py), every history drained in a drawn order with duplicated and "
         "out-of-order notifications; directory usage is answered by the instrumented connector from a per-directory table "
-        "(multiples of 128 KiB, at most the requested size). local-dirs: the same histories on non-stacked deployments whose "
+        "(multiples of 128 KiB, at most the requested size); for 1 job in 3 the query fails with a non-zero exit status "
+        "(directories removed) and the scheduler's documented fallback applies: the whole reservation is returned, nothing "
+        "is kept. local-dirs: the same histories on non-stacked deployments whose "
         "locations are local, with real directories (sparse files) measured by the unmodified local branch of "
         "get_storage_usages. Non-trivial (histories) = >= 2 requests granted, >= 1 duplicate notification, >= 1 job released "
         "from FIREABLE without running, and >= 1 quiescent point without fireable/running job at which the totals were "
